@@ -550,7 +550,10 @@ def c12_run(order_name):
            datetime.datetime(1970, 1, 1), datetime.datetime(2024, 1, 1, 12, 0, 0, 123000),
            datetime.datetime(2024, 1, 1, 12, 0, 0, 123000, tzinfo=tz2), datetime.datetime(2024, 1, 1, 12, 0, 0, 123456, tzinfo=tz2),
            datetime.datetime(1970, 1, 1, 1, 59, 59, 999000, tzinfo=tz2), datetime.datetime(1970, 1, 1, 2, 0, 0, 0, tzinfo=tz2),
-           datetime.datetime(1969, 12, 31, 12, 30, 0, 1000, tzinfo=tzm), datetime.datetime(1969, 12, 31, 12, 29, 59, 999000, tzinfo=tzm)]
+           datetime.datetime(1969, 12, 31, 12, 30, 0, 1000, tzinfo=tzm), datetime.datetime(1969, 12, 31, 12, 29, 59, 999000, tzinfo=tzm),
+           # local dates at the ends of the calendar whose UTC instant lies outside datetime.min..max
+           datetime.datetime(1, 1, 1, 0, 0, tzinfo=tz2), datetime.datetime(1, 1, 1, 0, 0, 0, 500, tzinfo=tzm),
+           datetime.datetime(9999, 12, 31, 23, 0, 0, 5000, tzinfo=tzm), datetime.datetime(9999, 12, 31, 23, 59, 59, 999000, tzinfo=tz2)]
     floats = [0.0, -0.0, 1.5, -1.5, 5e-324, 1.7976931348623157e308, -1.7976931348623157e308, float("inf"), float("-inf"), float("nan"), 2.0, 127.0, 128.0, 1e300]
     wrong = ["0", "", None, b"\x00", (0,), [0], 1.0, 0.0, 5.0, 127.0, -129.0, float("nan"), True, False, datetime.timedelta(0), E]
 
@@ -640,7 +643,10 @@ def c12_writer(acc, name, v, case, n):
     else:
         ok = back[0] == "ok" and back[1] == v
     if not ok:
-        acc.report(violation("C12", "writer", f"C12/member-does-not-read-back-equal/{name}", name, case, repr(v)[:80], repr(back[1:])[:100], (n,)))
+        sig = f"C12/member-does-not-read-back-equal/{name}"
+        if name == "TZAware" and (v - bridge.EPOCH) // datetime.timedelta(milliseconds=1) > bridge.MAX_DT_MS:
+            sig = "C12/member-beyond-utc-year-9999-does-not-read-back/TZAware"
+        acc.report(violation("C12", "writer", sig, name, case, repr(v)[:80], repr(back[1:])[:100], (n,)))
 
 
 def run_c12(tier):
